@@ -759,6 +759,10 @@ class SymEval:
                 after[k] = S.unknown("after-loop:" + k)
                 continue
             a1, a2 = env1.get(k), env2.get(k)
+            if a1 is None and a2 is None and k not in env0:
+                continue  # assigned only in code that is dead under the path condition: the entry value stays
+            if a1 is not None and a2 is not None and a1 == a2 and k in env0 and a1 == env0[k]:
+                continue  # not changed by the body
             if a1 is not None and a2 is not None and a1 == a2 and v not in S.symbols(a1) and not S.has_unknown(a1):
                 a0 = env0.get(k)
                 if a0 is None and "." in k:
